@@ -32,3 +32,10 @@ class DuckArr:
     def __init__(self, shape, dtype):
         self.shape = tuple(shape)
         self.dtype = dtype
+
+
+class Backend:
+    """an array class defined inside another class: importable by its qualified name (Backend.Tensor)"""
+
+    class Tensor(DuckArr):
+        pass
